@@ -693,7 +693,20 @@ class SymStr(SymSeq):
         return '<symstr>'
 
     def isdigit(self):
-        raise EngineLimit('SymStr.isdigit')
+        """str.isdigit(): non-empty and every character a Unicode digit (CPython's own database for symbolic code points)"""
+        it = self._get()
+        if not it:
+            return False
+        for x in it:
+            if isinstance(x, _int):
+                if not chr(x).isdigit():
+                    return False
+            elif x.w <= 7:
+                if not bool(SymBool(_range(x, 48, 57))):
+                    return False
+            elif not bool(uni_table('isdigit', lambda cp: 1 if chr(cp).isdigit() else 0, 1, x) == 1):
+                return False
+        return True
 
 
 def _limit(msg):
